@@ -3,7 +3,7 @@
 From Coq Require Import ZArith NArith List Bool Lia.
 Import ListNotations.
 From PG Require Import Common.Tactics Model.SymCoreDefs Model.SymCoreOps Model.SymCoreSpec Model.SymCoreC02
-     Proofs.SymCoreBase Proofs.SymCoreWF Proofs.SymCoreWFOps Proofs.SymCoreClone Proofs.SymCoreC02Read
+     Proofs.SymCoreBase Proofs.SymCoreWF Proofs.SymCoreWFOps Proofs.SymCoreClone Proofs.SymCoreIds Proofs.SymCoreC02Read
      Proofs.SymCoreC02Frame Proofs.SymCoreC02Prim Proofs.SymCoreC02List Proofs.SymCoreC02Dict Proofs.SymCoreC02Step
      Proofs.SymCoreC02Slice Proofs.SymCoreC02WF.
 From PG Require Model.PyList Model.PyDict.
@@ -36,8 +36,8 @@ Definition ex_dict_history : list (scope * op value) :=
     (sc0, DSetDefault kb (vi 9));
     (sc0, DPopItem) ].
 
-Example ex_state_wfs : wfs ex_state.
-Proof. apply init_forest_wfs. constructor. reflexivity. Qed.
+Example ex_state_WFI : WFI ex_state.
+Proof. apply init_forest_WFI. apply empty_WFI. reflexivity. Qed.
 
 Definition ex_list_items : list (key * node) :=
   [(KI 0, Leaf (LInt 1)); (KI 1, Node 2 KDict (Some 1%N) [KI 1] default_flags [(ka, Leaf (LInt 2))]); (KI 2, Leaf (LStr [98%N]))].
@@ -86,3 +86,8 @@ Proof.
     + destruct pre; destruct suf; simpl in E; try discriminate; congruence.
   - unfold ex_nested_history. cbn [dhist_ok]. hist_ok.
 Qed.
+
+(* repetition of a list that holds a container *)
+Definition ex_mul_history : list (scope * hop) := [ (sc0, HB (LIMul 2)); (sc0, HB (LMul 3)); (sc0, HB (LPop (Some 4))) ].
+Example ex_mul_hypotheses : lhist2_ok default_flags (evals ex_list_items) ex_mul_history.
+Proof. unfold ex_mul_history. cbn [lhist2_ok]. hist_ok. Qed.
